@@ -11,13 +11,16 @@
 
   RESULT. The natural statement (`RecordSoundNatural` below: every range of every companion
   was written into a file currently staged under that name) is FALSE for the unchanged
-  code — three independent witnesses (`natural_fails_prepare`, `natural_fails_clean`,
-  `natural_fails_duplicate`). What is proved (`record_sound`): in every run in which
+  code — witnesses `natural_fails_prepare`, `natural_fails_duplicate` (and, before `fix: the
+  stray cleaner removed the partial of a retransmission of a file that failed validation`,
+  `natural_fails_clean_orig`). What is proved (`record_sound`): in every run in which
     (P) Prepare does not (re)create `<n>.part` under a companion that survives,
     (R) every recorded range was written into the current staged file,
     (D) the "ignoring duplicate" branch of Receive does not drop a partial in state
         received / validated,
-    (C) cleanStrays removes a partial only when its companion's version is logged,
+    (C) cleanStrays removes a partial only when its companion's version is logged (after the
+        repair of the cleaner this fails only beside a validated copy held as `.wait`, or for
+        a companion without hash: `cleanOk_of`, `cleanOk_fails_validated`),
     (M) finalize finds the companion of the version it delivers — or a staged `.part` /
         `.full` of the version the companion does describe (still needed after `fix: putting
         a file away removed the companion of a newer version in progress`, witness
@@ -69,19 +72,36 @@ theorem cur_of_part (d : Disk) (n : Name) (r : Rng)
   obtain ⟨i, hp, hr⟩ := h
   exact ⟨i, by simp [Cur, hp], hr⟩
 
-/-- clause (C) in terms of what the cleaner reads: it holds when the companion has a hash
-    and the cache does not hold the same version as `validated` / `failed` (the residue of
-    `C20_only_delivered_reachable`). -/
+/-- clause (C) in terms of what the cleaner reads, after `fix: the stray cleaner removed the
+    partial of a retransmission of a file that failed validation`: it holds when the companion
+    has a hash and the cache does not hold the same version as `validated` (then the complete
+    validated copy is held as `<n>.wait` and the stale partial is a left-over duplicate:
+    clause (c) of `C20_only_delivered`). The cache state `failed` is no longer excluded: there
+    the cleaner now asks the receive log. That the remaining exclusion is needed for `CleanOk`
+    as defined: `cleanOk_fails_validated`. -/
 theorem cleanOk_of {H : Body → String} {s : State} (hr : Reachable H s) (now : Int)
     (names : List Name)
     (h : ∀ n ∈ names, ∀ c, s.disk.cmp n = some c → c.hash ≠ "" ∧
-      ¬ ∃ e, s.mem.cache n = some e ∧ e.hash = c.hash ∧ (e.state = .validated ∨ e.state = .failed)) :
+      ¬ ∃ e, s.mem.cache n = some e ∧ e.hash = c.hash ∧ e.state = .validated) :
     CleanOk s now names := by
   intro n hn hdec c hc
-  rcases C20_only_delivered_reachable hr now n c hc hdec with h1 | ⟨h2, _⟩ | h3
+  rcases C20_only_delivered hr now n c hc hdec with h1 | ⟨h2, _⟩ | ⟨e, _, he, hst, hh, _⟩
   · exact h1
   · exact absurd h2 (h n hn c hc).1
-  · exact absurd h3 (h n hn c hc).2
+  · exact absurd ⟨e, he, hh, hst⟩ (h n hn c hc).2
+
+/-- in particular clause (C) holds whenever no walked name is in cache state `validated` and no
+    companion has an empty hash -/
+theorem cleanOk_of_not_validated {H : Body → String} {s : State} (hr : Reachable H s) (now : Int)
+    (names : List Name)
+    (h : ∀ n ∈ names, stateOf s.mem n ≠ some .validated ∧
+      ∀ c, s.disk.cmp n = some c → c.hash ≠ "") :
+    CleanOk s now names := by
+  apply cleanOk_of hr
+  intro n hn c hc
+  refine ⟨(h n hn).2 c hc, ?_⟩
+  rintro ⟨e, he, _, hst⟩
+  exact (h n hn).1 (by simp [stateOf, he, hst])
 
 /-! ## the invariant -/
 
@@ -339,17 +359,21 @@ theorem natural_fails_prepare :
       subst hr
       simp at hh
 
-/-- (C) cleanStrays removes the partial and keeps the companion (cache state `failed`, same
-    hash — `clean_removes_retransmission` of Props/C20): the listing of partials (`scan`)
-    goes on claiming `[0,2)` of a file whose only staged copy is the `.full` that failed
-    validation. Harm: the sender resumes after `[0,2)`; the next Prepare removes the stale
-    companion (state failed), so the file completes only after a further round. -/
-theorem natural_fails_clean :
-    let s := step witH (runEvs witH init witFailedEvs) (.op (.cleanStrays 86410 ["f"]))
+/-- (C) cleanStrays AS FOUND (`cleanStraysEffectsOrig` of Props/C20, before `fix: the stray
+    cleaner removed the partial of a retransmission of a file that failed validation`) removed
+    the partial and kept the companion (cache state `failed`, same hash —
+    `clean_removes_retransmission`): the listing of partials (`scan`) went on claiming `[0,2)`
+    of a file whose only staged copy was the `.full` that failed validation. Harm: the sender
+    resumed after `[0,2)`; the next Prepare removed the stale companion (state failed), so the
+    file completed only after a further round. -/
+theorem natural_fails_clean_orig :
+    let s0 := runEvs witH init witFailedEvs
+    let s := run s0 (cleanStraysEffectsOrig s0 86410 ["f"])
     ¬ RecordSoundNatural s ∧ s.disk.log = [] ∧
-    ¬ CleanOk (runEvs witH init witFailedEvs) 86410 ["f"] := by
-  intro s
-  refine ⟨?_, by decide, ?_⟩
+    (cleanDecisionOrig s0 86410 "f").1 = true ∧
+    ¬ (∀ c, s0.disk.cmp "f" = some c → LoggedV s0.disk "f" c.hash) := by
+  intro s0 s
+  refine ⟨?_, by decide, by decide, ?_⟩
   · refine not_natural_of s "f" ⟨"", "", 4, "X", [⟨0, 2⟩]⟩ ⟨0, 2⟩ 0 (by decide) (by decide) ?_ (by decide)
     intro i hi
     have h1 : s.disk.part "f" = none := by decide
@@ -359,11 +383,55 @@ theorem natural_fails_clean :
     rcases hi with hi | hi | hi <;> cases hi
     rfl
   · intro h
-    have hc : (runEvs witH init witFailedEvs).disk.cmp "f" = some ⟨"", "", 4, "X", [⟨0, 2⟩]⟩ := by decide
-    obtain ⟨r, hr, _⟩ := h "f" (by simp) (by decide) _ hc
-    have hlog : (runEvs witH init witFailedEvs).disk.log = [] := by decide
+    have hc : s0.disk.cmp "f" = some ⟨"", "", 4, "X", [⟨0, 2⟩]⟩ := by decide
+    obtain ⟨r, hr, _⟩ := h _ hc
+    have hlog : s0.disk.log = [] := by decide
     rw [hlog] at hr
     cases hr
+
+/-- … the repaired cleaner meets clause (C) in that state and leaves the retransmission
+    alone: the claimed range `[0,2)` is still held by the staged partial -/
+theorem clean_failed_ok :
+    let s0 := runEvs witH init witFailedEvs
+    let s := step witH s0 (.op (.cleanStrays 86410 ["f"]))
+    CleanOk s0 86410 ["f"] ∧
+    s.disk.cmp "f" = some ⟨"", "", 4, "X", [⟨0, 2⟩]⟩ ∧
+    s.disk.part "f" = some 1 ∧ (⟨0, 2⟩ : Rng) ∈ s.disk.written 1 := by
+  intro s0 s
+  refine ⟨?_, by decide, by decide, by decide⟩
+  intro n hn hdec
+  simp only [List.mem_singleton] at hn
+  subst hn
+  have hd : (cleanDecision s0 86410 "f").1 = false := by decide
+  rw [hd] at hdec; cases hdec
+
+/-- version "h" of `a` is validated and held (predecessor "p" missing); the file is announced
+    again and nothing more arrives -/
+def witHeldEvs : List Ev :=
+  [.op (.prepare "a" 2 0), .op (.recvOpen 1 "a"), .op (.recvWrite 1 0 [7, 8] 0),
+   .op (.record "a" ⟨"", "p", 2, "h"⟩ 0 2 0), .op (.process "a" 1), .op (.finh "a" 2),
+   .op (.prepare "a" 2 10)]
+
+/-- what remains of the hypothesis of `cleanOk_of`: in cache state `validated` with the
+    companion's hash the cleaner removes a day-old partial although the version is not logged
+    (clause (c) of `C20_only_delivered`: the validated copy is held as `a.wait`), so `CleanOk`
+    as defined fails; here the companion's range was written into that held copy, so the
+    conclusion of `record_sound` is not affected. -/
+theorem cleanOk_fails_validated :
+    let s0 := runEvs witH init witHeldEvs
+    let s := step witH s0 (.op (.cleanStrays 86500 ["a"]))
+    ¬ CleanOk s0 86500 ["a"] ∧ ValidatedHeld s0 "a" "h" ∧ s0.disk.log = [] ∧
+    s.disk.part "a" = none ∧ s.disk.cmp "a" = some ⟨"", "p", 2, "h", [⟨0, 2⟩]⟩ ∧
+    Cur s.disk "a" = some 0 ∧ (⟨0, 2⟩ : Rng) ∈ s.disk.written 0 := by
+  intro s0 s
+  refine ⟨?_, ⟨_, 0, rfl, by decide, by decide, by decide⟩, by decide, by decide, by decide,
+    by decide, by decide⟩
+  intro h
+  have hc : s0.disk.cmp "a" = some ⟨"", "p", 2, "h", [⟨0, 2⟩]⟩ := by decide
+  obtain ⟨r, hr, _⟩ := h "a" (by simp) (by decide) _ hc
+  have hlog : s0.disk.log = [] := by decide
+  rw [hlog] at hr
+  cases hr
 
 /-- a complete file awaits validation; it is sent again, cut differently -/
 def witDupEvs : List Ev :=
